@@ -405,3 +405,6 @@ for _sc in (0, 1, 2):
       unwindset=_AP_UW + ["merge_patch:4", "merge_patch.0:4", "healthy.0:6", "count.0:7", "case_insensitive_strcmp.0:5"], timeout=(600, 1800),
       defs=["-DMN_SCEN=%d" % _sc, "-Dh_u_mergepatch_n=h_u_mergepatch_n_%d" % _sc],
       note="nested objects recurse with the caller's case mode: exact key replaced / deleted / added two levels down, case twin untouched; ledger")
+U("u_get_object_item", "utils", "harness/u_wrappers.c", enforce="get_object_item", shape="U", props=["C15", "C16", "C20"], covers=2, replace=["cJSON_GetObjectItem", "cJSON_GetObjectItemCaseSensitive"],
+  funcs=["get_object_item (cJSON_Utils.c)"], defs=["-DVF_UTILS_WRAPPERS", "-DUW_FN=get_object_item", "-DUW_KIND=4", "-DUW_H=h_u_get_object_item"],
+  note="case-mode dispatcher of cJSON_Utils.c: exactly one public lookup, the case-sensitive one iff case_sensitive, with the caller's arguments; answer returned")
